@@ -36,7 +36,7 @@ Proof. vm_compute. reflexivity. Qed.
 (* ------------------------------------------------------------------------------------------------------
    Added in build session 4 (statements re-stated from the proof files by harness tooling; each is closed by
    exact). *)
-From SplipyModel Require Import Model.Faces Proofs.FacesProofs Model.Orient Model.Faces2 Proofs.Faces2Proofs.
+From SplipyModel Require Import Model.Faces Proofs.FacesProofs Model.Orient Model.Faces2 Proofs.Faces2Proofs Model.OFoam Proofs.OFoamProofs.
 Theorem C18_cell_numbers_bijection :
   forall (shs : list idx3) (nums : list (list nat)) (n : nat),
          cell_numbers_model shs = (nums, n) ->
@@ -61,7 +61,7 @@ Proof. exact @face_count. Qed.
 Print Assumptions C18_face_count.
 
 Theorem C18_internal_face_owner_neighbor :
-  forall (start : nat) (sh : idx3) (f : face),
+  forall (start : nat) (sh : idx3) (f : Faces.face),
          In f (internal_faces_all start sh) ->
          exists (d : nat) (q : idx3),
            d < 3 /\
@@ -80,7 +80,7 @@ Theorem C18_adjacent_cells_have_face :
          in_cells sh c ->
          in_cells sh c' ->
          adjacent c c' ->
-         exists f : face,
+         exists f : Faces.face,
            In f (internal_faces_all start sh) /\
            (owner f = cell_number start sh c /\ neighbor f = Some (cell_number start sh c') \/
             owner f = cell_number start sh c' /\ neighbor f = Some (cell_number start sh c)).
@@ -99,7 +99,7 @@ Proof. exact @cell_six_faces. Qed.
 Print Assumptions C18_cell_six_faces.
 
 Theorem C18_internal_face_nodes :
-  forall (start : nat) (sh : idx3) (d : nat) (f : face),
+  forall (start : nat) (sh : idx3) (d : nat) (f : Faces.face),
          d < 3 ->
          In f (internal_faces start sh d) ->
          exists q : idx3,
@@ -113,7 +113,7 @@ Proof. exact @internal_face_nodes. Qed.
 Print Assumptions C18_internal_face_nodes.
 
 Theorem C18_boundary_lower_face_nodes :
-  forall (start : nat) (sh : idx3) (d : nat) (f : face),
+  forall (start : nat) (sh : idx3) (d : nat) (f : Faces.face),
          d < 3 ->
          pos_shape sh ->
          In f (boundary_faces start sh d false) ->
@@ -128,7 +128,7 @@ Proof. exact @boundary_lower_face_nodes. Qed.
 Print Assumptions C18_boundary_lower_face_nodes.
 
 Theorem C18_boundary_upper_face_nodes :
-  forall (start : nat) (sh : idx3) (d : nat) (f : face),
+  forall (start : nat) (sh : idx3) (d : nat) (f : Faces.face),
          d < 3 ->
          pos_shape sh ->
          In f (boundary_faces start sh d true) ->
@@ -143,7 +143,7 @@ Proof. exact @boundary_upper_face_nodes. Qed.
 Print Assumptions C18_boundary_upper_face_nodes.
 
 Theorem C18_internal_face_orientation :
-  forall (start : nat) (sh : idx3) (d : nat) (f : face),
+  forall (start : nat) (sh : idx3) (d : nat) (f : Faces.face),
          d < 3 ->
          In f (internal_faces start sh d) ->
          normal f = zunit d /\
@@ -158,7 +158,7 @@ Proof. exact @internal_face_orientation. Qed.
 Print Assumptions C18_internal_face_orientation.
 
 Theorem C18_boundary_upper_face_orientation :
-  forall (start : nat) (sh : idx3) (d : nat) (f : face),
+  forall (start : nat) (sh : idx3) (d : nat) (f : Faces.face),
          d < 3 ->
          pos_shape sh ->
          In f (boundary_faces start sh d true) ->
@@ -167,7 +167,7 @@ Proof. exact @boundary_upper_face_orientation. Qed.
 Print Assumptions C18_boundary_upper_face_orientation.
 
 Theorem C18_boundary_lower_face_orientation :
-  forall (start : nat) (sh : idx3) (d : nat) (f : face),
+  forall (start : nat) (sh : idx3) (d : nat) (f : Faces.face),
          d < 3 ->
          pos_shape sh ->
          In f (boundary_faces start sh d false) ->
@@ -176,7 +176,7 @@ Proof. exact @boundary_lower_face_orientation. Qed.
 Print Assumptions C18_boundary_lower_face_orientation.
 
 Theorem C18_owner_below_neighbour :
-  forall (start : nat) (sh : idx3) (f : face),
+  forall (start : nat) (sh : idx3) (f : Faces.face),
          pos_shape sh ->
          In f (patch_faces start sh) -> match neighbor f with
                                         | Some m => owner f < m
@@ -199,7 +199,7 @@ Print Assumptions C18_interface_closed_form.
 Theorem C18_interface_neighbor_adjacent :
   forall g : gluing,
          wf_gluing g ->
-         forall f : face,
+         forall f : Faces.face,
          In f (interface_faces g) ->
          exists a c : idx3,
            in_cells (g_shA g) a /\
@@ -264,7 +264,7 @@ Theorem C18_interface_owner_below_neighbour_iff :
   forall g : gluing,
          wf_gluing g ->
          disjoint_numbers g ->
-         forall (f : face) (m : nat),
+         forall (f : Faces.face) (m : nat),
          In f (interface_faces g) -> neighbor f = Some m -> owner f < m <-> g_startA g < g_startB g.
 Proof. exact @interface_assert_iff. Qed.
 Print Assumptions C18_interface_owner_below_neighbour_iff.
@@ -272,7 +272,7 @@ Print Assumptions C18_interface_owner_below_neighbour_iff.
 Theorem C18_two_patch_final_assert :
   forall g : gluing,
          wf_gluing g ->
-         forall f : face,
+         forall f : Faces.face,
          g_startA g + ncells (g_shA g) <= g_startB g ->
          In f (model_faces g) -> match neighbor f with
                                  | Some m => owner f < m
@@ -284,7 +284,7 @@ Print Assumptions C18_two_patch_final_assert.
 Theorem C18_interface_face_orientation :
   forall g : gluing,
          wf_gluing g ->
-         forall f : face,
+         forall f : Faces.face,
          In f (interface_faces g) ->
          exists a : idx3,
            in_cells (g_shA g) a /\
@@ -303,7 +303,7 @@ Print Assumptions C18_interface_face_orientation.
 Theorem C18_interface_face_nodes :
   forall g : gluing,
          wf_gluing g ->
-         forall f : face,
+         forall f : Faces.face,
          In f (interface_faces g) ->
          exists a : idx3,
            in_cells (g_shA g) a /\
@@ -324,4 +324,131 @@ Theorem C18_two_patch_face_count :
          length (patch_faces (g_startA g) (g_shA g)) + length (patch_faces (g_startB g) (g_shB g)).
 Proof. exact @model_face_count. Qed.
 Print Assumptions C18_two_patch_face_count.
+
+Theorem C18_ofoam_order_perm :
+  forall faces : list face, Permutation.Permutation faces (ofoam_order faces).
+Proof. exact @ofoam_order_perm. Qed.
+Print Assumptions C18_ofoam_order_perm.
+
+Theorem C18_ofoam_order_sorted :
+  forall faces : list face, Sorted.StronglySorted face_le (ofoam_order faces).
+Proof. exact @ofoam_order_sorted. Qed.
+Print Assumptions C18_ofoam_order_sorted.
+
+Theorem C18_ofoam_internal_first :
+  forall faces : list face,
+         ofoam_order faces = filter is_internal (ofoam_order faces) ++ filter is_boundary (ofoam_order faces).
+Proof. exact @ofoam_internal_first. Qed.
+Print Assumptions C18_ofoam_internal_first.
+
+Theorem C18_ofoam_internal_index :
+  forall (faces : list face) (i : nat) (f : face),
+         nth_error (ofoam_order faces) i = Some f -> is_internal f = true <-> i < n_internal faces.
+Proof. exact @ofoam_internal_index. Qed.
+Print Assumptions C18_ofoam_internal_index.
+
+Theorem C18_ofoam_internal_before_boundary :
+  forall (faces : list face) (i j : nat) (f g : face),
+         nth_error (ofoam_order faces) i = Some f ->
+         nth_error (ofoam_order faces) j = Some g -> f_name f = None -> f_name g <> None -> i < j.
+Proof. exact @ofoam_internal_before_boundary. Qed.
+Print Assumptions C18_ofoam_internal_before_boundary.
+
+Theorem C18_ofoam_internal_sorted :
+  forall faces : list face, Sorted.StronglySorted own_nb_le (firstn (n_internal faces) (ofoam_order faces)).
+Proof. exact @ofoam_internal_sorted. Qed.
+Print Assumptions C18_ofoam_internal_sorted.
+
+Theorem C18_ofoam_same_name_sorted :
+  forall (faces : list face) (n : option nat),
+         Sorted.StronglySorted own_nb_le (filter (has_name n) (ofoam_order faces)).
+Proof. exact @ofoam_same_name_sorted. Qed.
+Print Assumptions C18_ofoam_same_name_sorted.
+
+Theorem C18_ofoam_names_increasing :
+  forall faces : list face,
+         Sorted.StronglySorted (fun x y : face => name_le (f_name x) (f_name y)) (ofoam_order faces).
+Proof. exact @ofoam_names_increasing. Qed.
+Print Assumptions C18_ofoam_names_increasing.
+
+Theorem C18_ofoam_same_name_contiguous :
+  forall (faces : list face) (i j k : nat) (f g h : face),
+         i <= j ->
+         j <= k ->
+         nth_error (ofoam_order faces) i = Some f ->
+         nth_error (ofoam_order faces) j = Some g ->
+         nth_error (ofoam_order faces) k = Some h -> f_name f = f_name h -> f_name g = f_name f.
+Proof. exact @ofoam_same_name_contiguous. Qed.
+Print Assumptions C18_ofoam_same_name_contiguous.
+
+Theorem C18_ofoam_order_stable :
+  forall (faces : list face) (f0 : face), filter (same_key f0) (ofoam_order faces) = filter (same_key f0) faces.
+Proof. exact @ofoam_order_stable. Qed.
+Print Assumptions C18_ofoam_order_stable.
+
+Theorem C18_groupby_name_spec :
+  forall l : list face,
+         concat (map snd (groupby_name l)) = l /\
+         Forall group_ok (groupby_name l) /\ adj_diff (map fst (groupby_name l)).
+Proof. exact @groupby_name_spec. Qed.
+Print Assumptions C18_groupby_name_spec.
+
+Theorem C18_ofoam_blocks_names_increasing :
+  forall faces : list face, Sorted.StronglySorted lt (map b_name (boundary_blocks (ofoam_order faces))).
+Proof. exact @ofoam_blocks_names_increasing. Qed.
+Print Assumptions C18_ofoam_blocks_names_increasing.
+
+Theorem C18_ofoam_blocks_count :
+  forall faces : list face,
+         length (boundary_blocks (ofoam_order faces)) = declared_blocks faces /\
+         declared_blocks (ofoam_order faces) = declared_blocks faces.
+Proof. exact @ofoam_blocks_count. Qed.
+Print Assumptions C18_ofoam_blocks_count.
+
+Theorem C18_ofoam_blocks_names :
+  forall (faces : list face) (n : nat),
+         In n (map b_name (boundary_blocks (ofoam_order faces))) <-> (exists f : face, In f faces /\ f_name f = Some n).
+Proof. exact @ofoam_blocks_names. Qed.
+Print Assumptions C18_ofoam_blocks_names.
+
+Theorem C18_ofoam_blocks_first_start :
+  forall (faces : list face) (b : block),
+         hd_error (boundary_blocks (ofoam_order faces)) = Some b -> b_start b = n_internal faces.
+Proof. exact @ofoam_blocks_first_start. Qed.
+Print Assumptions C18_ofoam_blocks_first_start.
+
+Theorem C18_ofoam_blocks_next_start :
+  forall (faces : list face) (i : nat) (b b' : block),
+         nth_error (boundary_blocks (ofoam_order faces)) i = Some b ->
+         nth_error (boundary_blocks (ofoam_order faces)) (S i) = Some b' -> b_start b' = b_start b + b_nfaces b.
+Proof. exact @ofoam_blocks_next_start. Qed.
+Print Assumptions C18_ofoam_blocks_next_start.
+
+Theorem C18_ofoam_blocks_total :
+  forall faces : list face,
+         total_nfaces (boundary_blocks (ofoam_order faces)) = length (filter is_boundary faces) /\
+         n_internal faces + total_nfaces (boundary_blocks (ofoam_order faces)) = length faces.
+Proof. exact @ofoam_blocks_total. Qed.
+Print Assumptions C18_ofoam_blocks_total.
+
+Theorem C18_ofoam_blocks_cover :
+  forall (faces : list face) (b : block),
+         In b (boundary_blocks (ofoam_order faces)) ->
+         0 < b_nfaces b /\
+         n_internal faces <= b_start b /\
+         b_start b + b_nfaces b <= length faces /\
+         (forall i : nat,
+          b_start b <= i < b_start b + b_nfaces b ->
+          exists f : face, nth_error (ofoam_order faces) i = Some f /\ f_name f = Some (b_name b)).
+Proof. exact @ofoam_blocks_cover. Qed.
+Print Assumptions C18_ofoam_blocks_cover.
+
+Theorem C18_ofoam_blocks_cover_conv :
+  forall (faces : list face) (i : nat) (f : face) (n : nat),
+         nth_error (ofoam_order faces) i = Some f ->
+         f_name f = Some n ->
+         exists b : block,
+           In b (boundary_blocks (ofoam_order faces)) /\ b_name b = n /\ b_start b <= i < b_start b + b_nfaces b.
+Proof. exact @ofoam_blocks_cover_conv. Qed.
+Print Assumptions C18_ofoam_blocks_cover_conv.
 
